@@ -18,7 +18,7 @@ INFO = {
                    "(Optimal additionally requires length == depth; PmTree delegates to pmtree's verify and maps false to Err). R07-3 proof() "
                    "rejects position >= capacity before anything else and climbs exactly to the root (Full: until the heap index is 0; "
                    "Optimal: depth steps, then requires the index to be 0). R07-4 RLN::get_proof writes vec_fr(get_path_elements()) then "
-                   "vec_u8(get_path_index()) of the proof of the requested position; a failing lookup is returned as Err. R07-5 (shared with C06 R06-3): every write recomputes all ancestors of what it changed (unconditional climb to the root), so a proof recomputes the current root.",
+                   "vec_u8(get_path_index()) of the proof of the requested position; a failing lookup is returned as Err. R07-5 (shared with C06 R06-3): every write recomputes all ancestors of what it changed (unconditional climb to the root), so a proof recomputes the current root. R07-6 (shared, C06 R06-11): the persistent tree's proofs are read back from a store that keeps every record.",
     "not_decided": "binding (collision resistance of Poseidon), that the recomputed root equals the tree's current root after arbitrary "
                    "histories (needs C06's tree invariant, which is numeric), pmtree's own proof code (third-party, read as reference only)",
     "assumptions": ["pmtree's MerkleProof follows the same convention (its source in the cargo registry was read; not analysed as a subject)"],
